@@ -258,7 +258,7 @@ def _emit_fn(g, src, args, spec, loops, replaces, proofs=(), attrs=()):
     for pos, anchor, plines, pkind in proofs:
         if pkind == 'ghost':
             for pl in plines:
-                if pl.strip() and not re.match(r'\s*let ghost \w+(: [^=]+)? = [^;]*;\s*$', pl):
+                if pl.strip() and not re.match(r'\s*let ghost (mut )?\w+(: [^=]+)? = [^;]*;\s*$', pl):
                     raise AnchorLost('%s: ghost directive admits only `let ghost x = e;` lines, got %r' % (where, pl))
         pat = re.compile(_ws_pattern(anchor))
         ms = list(pat.finditer(body))
